@@ -130,7 +130,7 @@ def gen_case(rng, shape) -> Case:
             str(2**63 - 1), str(2**63), str(2**63 + mn), str(2**64 - 1), str(2**64), str(2**64 + mn), "007", "+5", "-1", "5s", "0x10",
             str(2**64 - DAY), str(2**64 - 1 - mx + mn)]
     rng.shuffle(hdrs)
-    for h in hdrs[:rng.choice([6, 9, 12])]:
+    for h in hdrs[:rng.choice([5, 7, 9])]:
         ops.append(f"ctl {h}")
     # the pure functions on boundary values (generated definitions vs the real functions)
     for _ in range(rng.choice([4, 8])):
@@ -180,11 +180,11 @@ def spec() -> Spec:
         generate=generate,
         extract=extract,
         nontrivial=nontrivial,
-        budget={"quick": 1800, "thorough": 40000},
-        search_budget={"quick": 3000, "thorough": 40000},
+        budget={"quick": 600, "thorough": 15000},
+        search_budget={"quick": 1200, "thorough": 15000},
         rule="one Node per case constructed from a boundary-grid configuration (11 boundary values per TTL field around the window: 0, +-1, "
              "min-1, min, max, max+1, 86400, 86401, INT64_MAX, INT64_MIN; inverted and extreme shapes; rotation/announce/PoW fields on their own "
-             "boundaries), 12 requested TTLs per node (0, -1, 1, min+-1, default, max+-1, 86401, INT64 extremes), 6-12 control STOREs with TTL "
+             "boundaries), 12 requested TTLs per node (0, -1, 1, min+-1, default, max+-1, 86401, INT64 extremes), 5-9 control STOREs with TTL "
              "headers (absent, empty, window +-1, 2^63-1, 2^63, 2^64-1, 2^64, malformed) and 4-8 direct calls of the sanitising functions; "
              "distinct = sha256 of the op list; non-trivial = the sanitiser or the clamp changed a value and the control plane both accepted and "
              "refused a STORE",
